@@ -150,6 +150,13 @@ func run(seed int64, n int, dir string, _ []string) {
 			"SELECT b, COUNT(*), SUM(a), MIN(a), MAX(a), AVG(a), LISTAGG(id, ',') FROM big GROUP BY b",
 			"SELECT b, c, COUNT(*) FROM big GROUP BY b, c HAVING COUNT(*) > 1",
 			"SELECT DISTINCT b, c FROM big",
+			// floating-point aggregates: addition is not associative, so the totals must not depend on how a long
+			// value list could be cut into ranges
+			"SELECT SUM(id * 0.1), AVG(id * 0.1), SUM(a / 7.0), STDEV(a * 0.3), VAR(id * 0.01), MEDIAN(a * 1.1) FROM big",
+			"SELECT b, SUM(id * 0.1), AVG(a / 3.0), SUM(DISTINCT a * 0.7) FROM big GROUP BY b",
+			"SELECT id, SUM(id * 0.1) OVER (PARTITION BY b) AS s, AVG(a * 0.3) OVER (PARTITION BY c ORDER BY id) AS av FROM big",
+			"SELECT DISTINCT b FROM big GROUP BY b, c",
+			"SELECT DISTINCT COUNT(*) FROM big GROUP BY b, c",
 			"SELECT id FROM big ORDER BY b, a DESC, id",
 			"SELECT x.id, y.id FROM big x JOIN small y ON x.b = y.b",
 			// the short table drives (the long one is the joined table), every join kind and spelling
